@@ -558,7 +558,8 @@ async fn create_session(State(state): State<AppState>) -> impl IntoResponse {
     request_body = InputPayload,
     responses(
         (status = 202, description = "Input accepted"),
-        (status = 404, description = "Session not found")
+        (status = 404, description = "Session not found"),
+        (status = 409, description = "Session already received its input")
     )
 )]
 async fn send_input(
@@ -573,6 +574,12 @@ async fn send_input(
             None => return StatusCode::NOT_FOUND.into_response(),
         }
     };
+
+    // One run per session: a second input would start a second run on the same stream (a second
+    // start frame at seq 0, two end frames) and the event log would no longer replay.
+    if !handle.take_input_slot() {
+        return StatusCode::CONFLICT.into_response();
+    }
 
     state
         .engine
